@@ -3,6 +3,8 @@ import Fir.Props.C11
 #print axioms Fir.C11.nearest_copy
 #print axioms Fir.C11.nearest_dims
 #print axioms Fir.C11.nearest_no_alpha
+#print axioms Fir.C11.row_cursor_eq_direct
+#print axioms Fir.C11.requested_rows_sorted
 #print axioms Fir.C11.ideal_pixel_under_centre
 #print axioms Fir.C11.ideal_in_bounds
 #print axioms Fir.C11.ideal_mono
